@@ -1,4 +1,5 @@
 import Mieru.Gen.Consts
+import Mieru.Gen.Facts
 import Mieru.Proofs.Replay
 /-!
 # C06 — the replay cache never misses inside its bounds, never reports never-seen traffic
@@ -268,5 +269,70 @@ example : keyAccept Mieru.Gen.keyRefreshIntervalNs (14500000 * 120 * nsPerSec) (
 /-- FNV-1a-64 test vectors ("" and "a" and "foobar" from the reference implementation) -/
 example : fnv1a64 [] = 0xcbf29ce484222325 ∧ fnv1a64 [0x61] = 0xaf63dc4c8601ec8c ∧
     fnv1a64 [0x66, 0x6f, 0x6f, 0x62, 0x61, 0x72] = 0x85944171f73967e8 := by decide
+
+/-! ## Simultaneous presentations
+
+The theorems above speak about SEQUENCES of calls.  Concurrent presentations (an on-path observer
+forwards a genuine first segment on its own connection while the server is still discovering the user
+of the original) are covered because every consultation of the caches is one atomic check-and-record
+under the cache's mutex: whatever the schedule, the consultations form a sequence, and of the copies of
+one unit only the first of that sequence is answered "new".  The first theorem is that statement about
+the model; the second ties its premise to the source (regenerated on every run): nothing but
+`IsDuplicate` reads the cache's maps, and both first-contact paths call exactly `IsDuplicate`,
+unconditionally, before any decryption or user discovery begins. -/
+
+/-- Of any number of copies of one unit presented within the retention interval — in ANY order the
+    schedule puts their consultations in (`mid` = the copies consulted in between, with any tags and
+    instants inside the window) — every copy after the first is reported on the stream path. -/
+theorem simultaneous_copies_one_winner (c : Cache) (hcap : 0 < c.cap) (mid : List Call) (e : Sig) (tag0 : Tag)
+    (t0 t1 : Nat) (hsame : ∀ p ∈ mid, p.sig = e)
+    (hmid : ∀ p ∈ mid, t0 ≤ p.time ∧ p.time ≤ t0 + c.iv) (ht0 : t0 ≤ t1) (ht : t1 ≤ t0 + c.iv) :
+    (step (run (step c e tag0 t0).1 mid) e emptyTag t1).2 = true := by
+  apply replay_no_miss_empty_tag c mid e tag0 t0 t1 hmid ht0 ht
+  intro l _ hl
+  cases l with
+  | nil => simpa using hcap
+  | cons x xs =>
+    exfalso
+    obtain ⟨hx, hne⟩ := hl x (by simp)
+    obtain ⟨p, hp, hpx⟩ := List.mem_map.mp hx
+    exact hne (by rw [← hpx]; exact hsame p hp)
+
+/-- the datagram path (tag = source address): every copy that comes from an address other than the
+    first presenter's is answered by the tag rule against an EARLIER presenter of the same unit -/
+theorem simultaneous_copies_datagram (cap iv start : Nat) (pre mid : List Call) (e : Sig) (tag0 tag1 : Tag)
+    (t0 t1 : Nat) (hsame : ∀ p ∈ mid, p.sig = e) (hcap : 0 < cap)
+    (hmid : ∀ p ∈ mid, t0 ≤ p.time ∧ p.time ≤ t0 + iv) (ht0 : t0 ≤ t1) (ht : t1 ≤ t0 + iv) :
+    ∃ p ∈ pre ++ ⟨e, tag0, t0⟩ :: mid, p.sig = e ∧
+      (step (run (init cap iv start) (pre ++ ⟨e, tag0, t0⟩ :: mid)) e tag1 t1).2 = tagConflict p.tag tag1 := by
+  apply replay_no_miss cap iv start pre mid e tag0 tag1 t0 t1 hmid ht0 ht
+  intro l _ hl
+  cases l with
+  | nil => simpa using hcap
+  | cons x xs =>
+    exfalso
+    obtain ⟨hx, hne⟩ := hl x (by simp)
+    obtain ⟨p, hp, hpx⟩ := List.mem_map.mp hx
+    exact hne (by rw [← hpx]; exact hsame p hp)
+
+/-- **Tie of the premise (regenerated from the source).**  (a) the only function of pkg/replay that
+    looks entries up is `IsDuplicate` (no read-only probe exists); (b) every use of the two
+    process-wide caches in pkg/protocol is a call of `IsDuplicate`; (c) on both first-contact paths
+    the metadata consultation is unconditional and textually precedes every decryption / discovery
+    call of the function. -/
+theorem consultation_is_atomic_and_first :
+    Mieru.Gen.Facts.replayCacheReaders = ["ReplayCache.IsDuplicate"] ∧
+    (∀ u ∈ Mieru.Gen.Facts.replayCacheUses, u.2.2.1 = "IsDuplicate") ∧
+    (Mieru.Gen.Facts.replayCacheUses.filter (fun u => u.2.2.2.1 == "metadata")) =
+      [("PacketUnderlay.readOneSegment", "packetReplayCache", "IsDuplicate", "metadata", "", true),
+       ("StreamUnderlay.readOneSegment", "streamReplayCache", "IsDuplicate", "metadata", "", true)] := by
+  refine ⟨by decide, by decide, by decide⟩
+
+/-- non-vacuity: three simultaneous copies on the stream path — the first is new, both others reported -/
+example : answers (init 8 300 0) [⟨7, [], 100⟩, ⟨7, [], 100⟩, ⟨7, [], 100⟩] = [false, true, true] := by decide
+
+/-- what a split check / record would allow (the interleaving check₁ check₂ record₁ record₂): both
+    copies see a cache that does not hold the unit — the schedule the tie above excludes -/
+example : (step (init 8 300 0) 7 [] 100).2 = false ∧ Fresh (init 8 300 0) 7 := ⟨by decide, rfl, rfl⟩
 
 end Mieru.C06
